@@ -41,25 +41,25 @@ pub fn parts_for(id: &str) -> Option<Vec<Part>> {
     Some(match id {
         "C04" => vec![part(c04_udp::UdpDemux, 200_000, 6_000_000)],
         "C05" => vec![part(c05_link::LinkLayer, 20_000, 600_000)],
-        "C06" => vec![part(c06_arp::ArpResolution, 400_000, 10_000_000)],
+        "C06" => vec![part(c06_arp::ArpResolution, 800_000, 10_000_000)],
         "C07" => vec![part(c07_message::MessageOps, 400_000, 8_000_000)],
         "C09" => vec![
-            part(c09_iptable::TableHistories, 400_000, 6_000_000),
-            part(c09_iptable::NetArithmetic, 400_000, 8_000_000),
+            part(c09_iptable::TableHistories, 1_500_000, 12_000_000),
+            part(c09_iptable::NetArithmetic, 1_500_000, 16_000_000),
         ],
-        "C08" => vec![part(codecs::Codecs, 600_000, 12_000_000)],
-        "C10" => vec![part(c10_fragment::Fragmentation, 150_000, 3_000_000)],
+        "C08" => vec![part(codecs::Codecs, 2_000_000, 24_000_000)],
+        "C10" => vec![part(c10_fragment::Fragmentation, 600_000, 6_000_000)],
         "C11" => vec![part(c11_reassembly::ReassemblyHistories, 100_000, 2_000_000)],
         "C01" => vec![part(tcb_checks::ReliableStream, 40_000, 3_000_000)],
         "C02" => vec![part(c02_sockets::StreamSockets { multi_thread: false }, 60_000, 2_000_000), part(c02_sockets::StreamSockets { multi_thread: true }, 640, 20_000), part(c02_dgram::DatagramSockets, 100_000, 3_000_000)],
         "C03" => vec![part(tcb_checks::OpenClose, 40_000, 3_000_000)],
-        "C12" => vec![part(c12_modcmp::ModCmpLaws, 200_000, 4_000_000), part(tcb_checks::IsnIndependence, 20_000, 1_500_000)],
-        "C16" => vec![part(c16_routing::Routing, 300_000, 10_000_000)],
+        "C12" => vec![part(c12_modcmp::ModCmpLaws, 1_000_000, 8_000_000), part(tcb_checks::IsnIndependence, 20_000, 1_500_000)],
+        "C16" => vec![part(c16_routing::Routing, 600_000, 10_000_000)],
         "C17" => vec![part(tcb_checks::HostileSegments, 60_000, 4_000_000)],
         "C13" => vec![part(c13_barrier::BarrierAndStatus { mt: false }, 100_000, 3_000_000), part(c13_barrier::BarrierAndStatus { mt: true }, 320, 10_000)],
-        "C14" => vec![part(codecs::DecodersNoPanic, 1_000_000, 20_000_000), part(ndl::NdlNoPanic, 100_000, 3_000_000), part(c14_frames::MalformedFrames, 60_000, 2_000_000)],
-        "C19" => vec![part(ndl::NdlRoundTrip, 40_000, 2_000_000), part(ndl::NdlRun, 10_000, 150_000)],
-        "C15" => vec![part(c15_ipgen::IpGenHistories, 300_000, 6_000_000), part(c15_dhcp::DhcpLeases, 60_000, 2_000_000)],
+        "C14" => vec![part(codecs::DecodersNoPanic, 3_000_000, 30_000_000), part(ndl::NdlNoPanic, 300_000, 4_000_000), part(c14_frames::MalformedFrames, 60_000, 2_000_000)],
+        "C19" => vec![part(ndl::NdlRoundTrip, 200_000, 3_000_000), part(ndl::NdlRun, 10_000, 150_000)],
+        "C15" => vec![part(c15_ipgen::IpGenHistories, 1_000_000, 12_000_000), part(c15_dhcp::DhcpLeases, 200_000, 3_000_000)],
         "C18" => vec![part(codecs::Codecs, 400_000, 8_000_000), part(codecs::CorruptionRejected, 400_000, 8_000_000), part(c18_wire::WireChecksums, 20_000, 600_000), part(tcb_checks::ChecksumsOfTcb, 40_000, 2_000_000)],
         "C20" => vec![part(c20_dns::DnsResolution, 200_000, 6_000_000)],
         _ => return None,
